@@ -369,9 +369,9 @@ def run(p: Program, rep: Report, tier: str) -> None:
     rep.require_instances("R1.4", 20)
 
     # ---------------------------------------------------------------- R1.6 decoder input discipline
-    from .mp_common import file_field_decision, header_line_split, parseparam_quote_parity, receive_data_discipline
+    from .mp_common import file_field_decision, header_line_split, parse_header_splits_at_first_equals, parseparam_quote_parity, receive_data_discipline
 
-    for fnc in (receive_data_discipline, header_line_split, file_field_decision, parseparam_quote_parity):
+    for fnc in (receive_data_discipline, header_line_split, file_field_decision, parseparam_quote_parity, parse_header_splits_at_first_equals):
         for kind, fn_, node, cons, msg, facts in fnc(p, rep):
             if kind == "ok":
                 rep.ok("R1.6", msg)
